@@ -289,16 +289,17 @@ func TestRetargetForks(t *testing.T) {
 }
 
 var profile = sim.Profile{
-	Forks:      true,
-	Viols:      []string{"bad_script", "dup_in_block", "spent_earlier", "missing_txid", "in_below_out", "cb_overclaim", "later_output"},
-	ViolPct:    12,
-	MaxTx:      5,
-	MinOps:     10,
-	MaxOps:     60,
-	Prefixes:   []int{0, 100, 101, 102, 105, 110},
-	IdlePct:    5,
-	RedelivPct: 2,
-	Signed:     true,
+	Forks:        true,
+	Viols:        []string{"bad_script", "dup_in_block", "spent_earlier", "missing_txid", "in_below_out", "cb_overclaim", "later_output"},
+	ViolPct:      12,
+	MaxTx:        5,
+	MinOps:       10,
+	MaxOps:       60,
+	Prefixes:     []int{0, 100, 101, 102, 105, 110},
+	IdlePct:      5,
+	RedelivPct:   2,
+	Signed:       true,
+	UnwindWindow: true,
 }
 
 // optsFor: half of the histories run with a block cache of only 2, 3 or 5 blocks (a fixed function of the history,
@@ -334,6 +335,9 @@ func TestTree(t *testing.T) {
 			if s.Reorgs > 0 {
 				r.NonTrivial()
 				r.Class("reorg")
+				if b := c.Params.Base; b > 2000 && b < 3000 && s.Tip.Idx.Height > 2561 {
+					r.Class("reorg_while_undo_files_leave_the_unwind_window")
+				}
 			}
 			if s.FailedReorgs > 0 {
 				r.Class("failed_reorg")
